@@ -405,7 +405,7 @@ namespace
 
     static std::unique_ptr<NodeType> make_base(const vm::MeshSpec& ms, int qtot, int part_variant)
     {
-      std::unique_ptr<NodeType> base = NodeType::make_unique(vm::build_mesh<MeshType>(ms, !(vm::ShapeInfo<Shape_>::simplex && dim == 3)));
+      std::unique_ptr<NodeType> base = NodeType::make_unique(vm::build_mesh<MeshType>(ms, true));
       if(part_variant >= 0) attach_base_parts(*base, qtot, part_variant);
       return base;
     }
@@ -531,7 +531,7 @@ namespace
     {
       if(!c.want()) continue;
       c.desc([&]{ return "Parti2Lvl " + vm::spec_str(ms) + " ranks=" + std::to_string(p); });
-      auto mesh = vm::build_mesh<typename X::MeshType>(ms, !(ms.simplex && ms.dim == 3));
+      auto mesh = vm::build_mesh<typename X::MeshType>(ms, true);
       Parti2Lvl<typename X::MeshType> parti(*mesh, Index(p));
       // harness formula: p = n * f^k; hypercubes f = 2, simplices f = number of children
       const long f = ms.simplex ? vm::nchild(true, ms.dim, ms.dim) : 2;
@@ -563,7 +563,7 @@ namespace
       if(b > 0 && seed >= nseeds / 4) continue;
       if(!c.want()) continue;
       c.desc([&]{ return "PartiIterative " + vm::spec_str(ms) + " patches=" + std::to_string(p) + " time_init=" + std::to_string(budgets[b][0]) + " time_mutate=" + std::to_string(budgets[b][1]) + " (virtual seconds, 1 per clock read) seed=time()=" + std::to_string(seed); });
-      auto mesh = vm::build_mesh<typename X::MeshType>(ms, !(ms.simplex && ms.dim == 3));
+      auto mesh = vm::build_mesh<typename X::MeshType>(ms, true);
       Dist::Comm comm = Dist::Comm::world();
       c.nontrivial(verif::Hash().pod(ms.simplex).pod(ms.dim).str(ms.name).pod(ms.cells.size()).pod(p).pod(b).pod(seed).get());
       // first in a forked child: the constructor may die
